@@ -1,4 +1,4 @@
-"""C18 - no carry-over between messages through recycled objects and buffers (spec/MsgCache.tla)."""
+"""C18 - no carry-over between messages through recycled objects and buffers (spec/MsgCache.tla, spec/ReadBuf.tla)."""
 import json
 import os
 import time
@@ -10,7 +10,8 @@ RULE = ("every history of 4 (thorough: 5) messages of one type (Twalk, Twalkgeta
         "payload lengths from {0, 1, 3} on two connections sharing the process-wide message cache and the buffer pools (long then "
         "short, short then empty, interleaved across connections); every request's elements come from an alphabet unique to it, "
         "a lazy backend read exposes un-cleared buffers; compared: the arguments at the backend and the reply bytes with the "
-        "request's own frame")
+        "request's own frame; plus batches of 2..5 Treads of mixed lengths all handled while the reply transport is stalled "
+        "(the schedule of ReadBuf.tla in which every reply is queued before any is written): every Rread carries its own bytes")
 
 
 def run(tier, seed):
@@ -28,6 +29,12 @@ def run(tier, seed):
         r = vlib.run_tlc(s, "MC_MsgCache", cfg, workers=1, env={"GEN_OUT": out}, name="msgcache", timeout=1500)
         if "violated" in r:
             raise Inconclusive("MsgCache.tla violates " + r["violated"])
+        rb_cfg = "\n".join(["SPECIFICATION Spec", "CONSTANTS", "  Reads = {1, 2, 3%s}" % ("" if tier == "quick" else ", 4"),
+                            "  Bufs = {1, 2, 3%s}" % ("" if tier == "quick" else ", 4"),
+                            "INVARIANTS ReplyIsOwn BufferExclusive PoolZeroed", "CHECK_DEADLOCK FALSE", ""])
+        rb = vlib.run_tlc(s, "ReadBuf", rb_cfg, name="readbuf", timeout=600)
+        if "violated" in rb:
+            raise Inconclusive("ReadBuf.tla violates " + rb["violated"])
         outs = []
 
         def args(i, k):
@@ -49,10 +56,11 @@ def run(tier, seed):
         for f in findings[:5]:
             p = vlib.save_replay(prop, {"finding": f}, "msgcache")
             verdict.violation(p, f)
-    cov = {"states": r.get("distinct", 0), "transitions": r.get("generated", 0),
+    cov = {"states": r.get("distinct", 0) + rb.get("distinct", 0), "transitions": r.get("generated", 0) + rb.get("generated", 0),
+           "readbuf_tla": {"distinct": rb.get("distinct"), "invariants": ["ReplyIsOwn", "BufferExclusive", "PoolZeroed"]},
            "traces_validated_against_impl": cases - len(findings), "samples": samples[:2] or [{"note": "none"}],
            "evaluations": cases, "distinct_nontrivial": cases, "rule": RULE, "requests": reqs, "exhaustive": True,
-           "checker_cmd": "tlc MC_MsgCache.tla + harness/cmd/msgcache"}
+           "checker_cmd": "tlc MC_MsgCache.tla, ReadBuf.tla + harness/cmd/msgcache"}
     vlib.write_evidence(prop, tier, seed, "model_checking", cov, [
         "the orders of messages are exhaustive in the bound; the contents are one unique alphabet per request (exploration over contents)",
         "requests are handled one after the other, so each finds the object its predecessor returned to the cache; histories run in one server process per shard, so residue also carries over between histories",
